@@ -9,7 +9,7 @@ TECHNIQUE = "runtime monitoring: partition + conservation oracle on fitted bin_i
 LEVEL_TEXT = ("HistogramVectorizer and KDEVectorizer are fitted on generated datasets over the strategy / absolute_range / outlier-bin menu and "
               "transformed on probe sequences built from the fitted edges themselves (each edge, +-1 ulp, training min/max, far outliers, empty "
               "rows); an oracle written from the statement checks the partition, bin-wise membership and conservation, and for the KDE "
-              "non-negativity, order-independence and the closed-form Gaussian density. Held = no violation on the executions produced.")
+              "non-negativity, order-independence and the closed-form Gaussian density (also for sequences of 8193-20011 values); every histogram estimator is re-fitted on shifted data and compared with a fresh one. Held = no violation on the executions produced.")
 LEVEL_NOTE = "Trusts pandas Interval endpoints as the fitted edges (the oracle re-does membership with plain float comparisons) and float64 exp for the closed-form KDE."
 RULE = ("case = (dataset, n_components, strategy, absolute_range, outlier bins) resp. (dataset, bandwidth, n_components, grid strategy); "
         "non-trivial when the training data have >= 3 distinct values and the probe set hits >= 2 bins; distinct = distinct parameter tuple + data hash")
